@@ -13,9 +13,36 @@ import tlslite.x509certchain as x509cc
 import tlslite.utils.asn1parser as asn1
 
 
+_ORIG_TOSTR = consts.TLSEnum.__dict__["toStr"].__func__
+_ORIG_TOREPR = consts.TLSEnum.__dict__["toRepr"].__func__
+
+
+def _has_sym(value):
+    from symx.core import SymInt, SymBool
+    if isinstance(value, (SymInt, SymBool)):
+        return True
+    if isinstance(value, (tuple, list)):
+        return any(_has_sym(v) for v in value)
+    return False
+
+
 def _tostr(cls, value, blacklist=None):
-    """formatting stub: names of enum values are irrelevant to the codecs"""
-    return "<%s>" % cls.__name__
+    """formatting stub: the NAME of a symbolic enum value is only ever used
+    in messages; concrete values keep the real behaviour (SignatureScheme /
+    HashAlgorithm.toRepr carry meaning in the handshake code)"""
+    if _has_sym(value):
+        return "<%s>" % cls.__name__
+    if blacklist is None:
+        return _ORIG_TOSTR(cls, value)
+    return _ORIG_TOSTR(cls, value, blacklist)
+
+
+def _torepr(cls, value, blacklist=None):
+    if _has_sym(value):
+        return "<%s>" % cls.__name__
+    if blacklist is None:
+        return _ORIG_TOREPR(cls, value)
+    return _ORIG_TOREPR(cls, value, blacklist)
 
 
 class OpaqueX509(object):
@@ -53,7 +80,7 @@ def codec_proxies():
         (T, "_certificateExtensions", SymDict(T._certificateExtensions)),
         (T, "_hrrExtensions", SymDict(T._hrrExtensions)),
         (consts.TLSEnum, "toStr", classmethod(_tostr)),
-        (consts.TLSEnum, "toRepr", classmethod(_tostr)),
+        (consts.TLSEnum, "toRepr", classmethod(_torepr)),
     ]
 
 
